@@ -18,6 +18,8 @@ from __future__ import absolute_import
 #    You should have received a copy of the GNU General Public License
 #    along with this program.  If not, see <http://www.gnu.org/licenses/>.
 
+import copy
+
 from mingus.containers.note import Note
 from mingus.core import intervals, chords, progressions
 from mingus.containers.mt_exceptions import UnexpectedObjectError
@@ -88,8 +90,10 @@ class NoteContainer(object):
         >>> notes = [['C', 5, {'velocity': 20}], ['E', 6, {'velocity': 20}]]
         """
         if hasattr(notes, "notes"):
+            # copy the Notes of the other container, so that the two
+            # containers stay independent of each other
             for x in notes.notes:
-                self.add_note(x)
+                self.add_note(copy.copy(x))
             return self.notes
         elif hasattr(notes, "name"):
             self.add_note(notes)
